@@ -142,6 +142,13 @@ let dispatch (req : string list) (impl : string list) : string * string =
         in
         ("OK " ^ t, verdict)
     end
+  | [ "TS"; p; t ] ->
+    let reply =
+      match resolve_timestamp (str_of_field p) (n_of_dec t) with
+      | Some v -> "OK " ^ field_of_str v
+      | None -> "ERR"
+    in
+    (reply, if String.concat " " impl = reply then "OK" else "BAD:calendar-field")
   | [ "PEP"; s ] ->
     let s = str_of_field s in
     let m = pep_parse s in
